@@ -642,3 +642,512 @@ Qed.
 Lemma fq_has_leader_false_unknown c q :
   ~ known (cs c) (fq_topic q) (fq_partition q) -> fq_has_leader c q = false.
 Proof. intros H. unfold fq_has_leader. rewrite unknown_find_broker_None by exact H. reflexivity. Qed.
+
+(* ================================================================================================== *)
+(* Part 4: produce                                                                                     *)
+(* ================================================================================================== *)
+Definition produce_inv (s : cstate) : bytes -> bytes -> Z * list pmsg -> Prop :=
+  fun host t pm => find_broker s t (fst pm) = Some host /\ snd pm <> [].
+
+Lemma produce_reqs_inv s msgs : forall acc reqs,
+  all3 (produce_inv s) acc -> produce_reqs s msgs acc = Some reqs -> all3 (produce_inv s) reqs.
+Proof.
+  induction msgs as [|m r IH]; intros acc reqs Hacc; cbn [produce_reqs].
+  - intros H. injection H as <-. exact Hacc.
+  - destruct (find_broker s (pq_topic m) (pq_partition m)) as [host|] eqn:E; [|discriminate].
+    apply IH. apply phost_add_all3; [exact Hacc| |].
+    + intros ms [H1 H2]. split; [exact H1|]. cbn [snd]. intros Hx. apply app_eq_nil in Hx.
+      destruct Hx as [_ Hx]. discriminate Hx.
+    + split; [exact E|]. cbn [snd]. discriminate.
+Qed.
+
+(* every message set of every produce request is addressed to the current leader of its partition *)
+Theorem C20_produce_leader : forall s msgs reqs,
+  produce_reqs s msgs [] = Some reqs ->
+  forall host tps t ps p ms, In (host, tps) reqs -> In (t, ps) tps -> In (p, ms) ps ->
+    find_broker s t p = Some host /\ ms <> [].
+Proof.
+  intros s msgs reqs H host tps t ps p ms H1 H2 H3.
+  apply (produce_reqs_inv s msgs [] reqs (all3_nil _) H host tps t ps (p, ms) H1 H2 H3).
+Qed.
+
+Theorem C20_produce_known : forall s msgs reqs,
+  produce_reqs s msgs [] = Some reqs ->
+  forall host tps t ps p ms, In (host, tps) reqs -> In (t, ps) tps -> In (p, ms) ps -> known s t p.
+Proof.
+  intros s msgs reqs H host tps t ps p ms H1 H2 H3.
+  destruct (C20_produce_leader s msgs reqs H host tps t ps p ms H1 H2 H3) as [Ha _].
+  apply find_broker_known in Ha. exact Ha.
+Qed.
+
+Lemma produce_reqs_None_iff s msgs : forall acc,
+  produce_reqs s msgs acc = None <->
+  exists m, In m msgs /\ find_broker s (pq_topic m) (pq_partition m) = None.
+Proof.
+  induction msgs as [|m r IH]; intros acc; cbn [produce_reqs].
+  - split; [discriminate|intros [m [[] _]]].
+  - destruct (find_broker s (pq_topic m) (pq_partition m)) as [host|] eqn:E.
+    + rewrite IH. split.
+      * intros [m' [H1 H2]]. exists m'. split; [right; exact H1|exact H2].
+      * intros [m' [[H1|H1] H2]]; [subst m'; rewrite E in H2; discriminate|]. exists m'. split; assumption.
+    + split; [|reflexivity]. intros _. exists m. split; [left; reflexivity|exact E].
+Qed.
+
+Theorem C20_produce_local_fail : forall s msgs,
+  (exists m, In m msgs /\ find_broker s (pq_topic m) (pq_partition m) = None) ->
+  produce_reqs s msgs [] = None.
+Proof. intros s msgs H. apply produce_reqs_None_iff. exact H. Qed.
+
+(* in particular: any record naming a topic / partition that is not in the metadata *)
+Corollary C20_produce_unknown_fail : forall s msgs,
+  (exists m, In m msgs /\ ~ known s (pq_topic m) (pq_partition m)) -> produce_reqs s msgs [] = None.
+Proof.
+  intros s msgs [m [H1 H2]]. apply C20_produce_local_fail. exists m. split; [exact H1|].
+  apply unknown_find_broker_None. exact H2.
+Qed.
+
+Lemma produce_reqs_ext s s' : (forall t p, find_broker s t p = find_broker s' t p) ->
+  forall msgs acc, produce_reqs s msgs acc = produce_reqs s' msgs acc.
+Proof.
+  intros H. induction msgs as [|m r IH]; intros acc; cbn [produce_reqs]; [reflexivity|].
+  rewrite H. destruct (find_broker s' (pq_topic m) (pq_partition m)); [apply IH|reflexivity].
+Qed.
+
+(* ---- running the monad: the first two steps of every call ----------------------------------------- *)
+(* the state after `next_corr`: nothing but the correlation counter of the client state changes *)
+Definition bump_corr (x : st) : st :=
+  {| script := script x; trace := trace x; anyq := anyq x; hostq := hostq x; fetchq := fetchq x;
+     entryq := entryq x;
+     cl := {| cfg := cfg (cl x); cs := snd (next_correlation_id (cs (cl x))); conns := conns (cl x) |};
+     env := env x |}.
+
+Lemma bump_corr_trace x : trace (bump_corr x) = trace x /\ script (bump_corr x) = script x.
+Proof. split; reflexivity. Qed.
+
+Lemma bump_corr_metadata x :
+  brokers (cs (cl (bump_corr x))) = brokers (cs (cl x))
+  /\ topic_partitions (cs (cl (bump_corr x))) = topic_partitions (cs (cl x))
+  /\ group_coordinators (cs (cl (bump_corr x))) = group_coordinators (cs (cl x))
+  /\ cfg (cl (bump_corr x)) = cfg (cl x) /\ conns (cl (bump_corr x)) = conns (cl x).
+Proof. repeat split; reflexivity. Qed.
+
+Lemma next_corr_run x : next_corr x = (Ok (fst (next_correlation_id (cs (cl x)))), bump_corr x).
+Proof. reflexivity. Qed.
+
+Lemma get_client_run x : get_client x = (Ok (cl x), x).
+Proof. reflexivity. Qed.
+
+Lemma mbind_run {A B} (m : M A) (f : A -> M B) x a x' : m x = (Ok a, x') -> mbind m f x = f a x'.
+Proof. intros H. unfold mbind. rewrite H. reflexivity. Qed.
+
+Lemma find_broker_next_corr s t p : find_broker (snd (next_correlation_id s)) t p = find_broker s t p.
+Proof. reflexivity. Qed.
+
+Theorem C20_produce_call_local_fail : forall acks timeout msgs x,
+  (exists m, In m msgs /\ find_broker (cs (cl x)) (pq_topic m) (pq_partition m) = None) ->
+  internal_produce_messages acks timeout msgs x = (Err (EKafka KC_UnknownTopicOrPartition), bump_corr x).
+Proof.
+  intros acks timeout msgs x H. unfold internal_produce_messages.
+  rewrite (mbind_run _ _ _ _ _ (next_corr_run x)).
+  rewrite (mbind_run _ _ _ _ _ (get_client_run (bump_corr x))).
+  change (cs (cl (bump_corr x))) with (snd (next_correlation_id (cs (cl x)))).
+  rewrite (produce_reqs_ext _ (cs (cl x)) (find_broker_next_corr (cs (cl x)))).
+  rewrite (C20_produce_local_fail _ _ H). reflexivity.
+Qed.
+
+(* ================================================================================================== *)
+(* Part 5: commit and group offset fetch (both fold tp_add over the checked arguments)                 *)
+(* ================================================================================================== *)
+Definition tp_fold {P} (acc : list (bytes * list P)) (items : list (bytes * P)) : list (bytes * list P) :=
+  fold_left (fun a x => tp_add a (fst x) (snd x)) items acc.
+
+Definition tp_entries {P} (t : bytes) (tps : list (bytes * list P)) : list P :=
+  match assoc_bytes t tps with Some ps => ps | None => [] end.
+
+(* topics in order of first occurrence *)
+Definition first_occ (ks : list bytes) (acc : list bytes) : list bytes :=
+  fold_left (fun a k => if existsb (fun k' => bytes_eqb k' k) a then a else a ++ [k]) ks acc.
+
+Lemma tp_fold_NoDup {P} (items : list (bytes * P)) : forall acc,
+  NoDup (map fst acc) -> NoDup (map fst (tp_fold acc items)).
+Proof.
+  unfold tp_fold. induction items as [|x r IH]; intros acc H; cbn [fold_left]; [exact H|].
+  apply IH. apply tp_add_NoDup. exact H.
+Qed.
+
+Lemma tp_entries_tp_add {P} (tps : list (bytes * list P)) t p t0 :
+  tp_entries t0 (tp_add tps t p) = tp_entries t0 tps ++ (if bytes_eqb t t0 then [p] else []).
+Proof.
+  unfold tp_entries. destruct (bytes_eqb t t0) eqn:E.
+  - apply bytes_eqb_eq in E. subst t0. rewrite assoc_tp_add_same. destruct (assoc_bytes t tps); reflexivity.
+  - apply bytes_eqb_neq in E. rewrite assoc_tp_add_other by exact E. rewrite app_nil_r. reflexivity.
+Qed.
+
+Lemma tp_fold_entries {P} (items : list (bytes * P)) t : forall acc,
+  tp_entries t (tp_fold acc items)
+  = tp_entries t acc ++ map snd (filter (fun x => bytes_eqb (fst x) t) items).
+Proof.
+  unfold tp_fold. induction items as [|x r IH]; intros acc; cbn [fold_left filter map].
+  - rewrite app_nil_r. reflexivity.
+  - rewrite IH, tp_entries_tp_add, <- app_assoc. destruct (bytes_eqb (fst x) t); reflexivity.
+Qed.
+
+Lemma has_key_existsb {V} t (l : list (bytes * V)) :
+  has_key bytes_eqb t l = existsb (fun k' => bytes_eqb k' t) (map fst l).
+Proof. unfold has_key. induction l as [|[k v] r IH]; cbn [existsb map fst]; [reflexivity|rewrite IH; reflexivity]. Qed.
+
+Lemma tp_fold_keys {P} (items : list (bytes * P)) : forall acc,
+  map fst (tp_fold acc items) = first_occ (map fst items) (map fst acc).
+Proof.
+  unfold tp_fold, first_occ. induction items as [|x r IH]; intros acc; cbn [fold_left map]; [reflexivity|].
+  rewrite IH, tp_add_keys, has_key_existsb.
+  destruct (existsb (fun k' => bytes_eqb k' (fst x)) (map fst acc)); reflexivity.
+Qed.
+
+Lemma tp_fold_In {P} (items : list (bytes * P)) t ps :
+  In (t, ps) (tp_fold [] items) -> ps <> [] /\ forall p, In p ps -> In (t, p) items.
+Proof.
+  revert t ps. unfold tp_fold.
+  apply (fold_left_inv (fun tps => forall t ps, In (t, ps) tps -> ps <> [] /\ forall p, In p ps -> In (t, p) items)).
+  - intros acc [t0 p0] Hx Hacc t ps. cbn [fst snd]. rewrite tp_add_upsert. revert t ps.
+    apply (upsert_all bytes_eqb bytes_eqb_eq (fun t ps => ps <> [] /\ forall p, In p ps -> In (t, p) items)).
+    + exact Hacc.
+    + intros v _ [_ Hv]. split.
+      * intros Hn. apply app_eq_nil in Hn. destruct Hn as [_ Hn]. discriminate Hn.
+      * intros p Hp. apply in_app_iff in Hp. destruct Hp as [Hp|[<-|[]]]; [apply Hv; exact Hp|exact Hx].
+    + split; [discriminate|]. intros p [<-|[]]. exact Hx.
+  - intros t ps [].
+Qed.
+
+Lemma filter_map_snd {A P} (g : A -> bytes * P) t (l : list A) :
+  map snd (filter (fun x => bytes_eqb (fst x) t) (map g l))
+  = map (fun a => snd (g a)) (filter (fun a => bytes_eqb (fst (g a)) t) l).
+Proof.
+  induction l as [|a r IH]; cbn [map filter]; [reflexivity|].
+  destruct (bytes_eqb (fst (g a)) t); cbn [map]; rewrite IH; reflexivity.
+Qed.
+
+(* ---- commit ---------------------------------------------------------------------------------------- *)
+Definition commit_items (os : list commit_offset) : list (bytes * (Z * Z)) :=
+  map (fun o => (co_topic o, (co_partition o, co_offset o))) os.
+
+Lemma commit_tps_Some_iff s os : forall acc tps,
+  commit_tps s os acc = Some tps <->
+  (forall o, In o os -> known s (co_topic o) (co_partition o)) /\ tps = tp_fold acc (commit_items os).
+Proof.
+  induction os as [|o r IH]; intros acc tps; cbn [commit_tps commit_items map].
+  - unfold tp_fold. cbn [fold_left]. split.
+    + intros H. injection H as <-. split; [intros o []|reflexivity].
+    + intros [_ ->]. reflexivity.
+  - destruct (contains_topic_partition s (co_topic o) (co_partition o)) eqn:E.
+    + rewrite IH. unfold tp_fold, commit_items. cbn [fold_left fst snd]. apply known_iff in E. split.
+      * intros [H1 H2]. split; [|exact H2]. intros o' [<-|H']; [exact E|apply H1; exact H'].
+      * intros [H1 H2]. split; [|exact H2]. intros o' H'. apply H1. right. exact H'.
+    + apply not_known_iff in E. split; [discriminate|]. intros [H1 _]. exfalso. apply E. apply H1. left. reflexivity.
+Qed.
+
+Lemma commit_tps_None_iff s os : forall acc,
+  commit_tps s os acc = None <-> exists o, In o os /\ ~ known s (co_topic o) (co_partition o).
+Proof.
+  induction os as [|o r IH]; intros acc; cbn [commit_tps].
+  - split; [discriminate|intros [o [[] _]]].
+  - destruct (contains_topic_partition s (co_topic o) (co_partition o)) eqn:E.
+    + rewrite IH. apply known_iff in E. split.
+      * intros [o' [H1 H2]]. exists o'. split; [right; exact H1|exact H2].
+      * intros [o' [[H1|H1] H2]]; [subst o'; contradiction|]. exists o'. split; assumption.
+    + apply not_known_iff in E. split; [|reflexivity]. intros _. exists o. split; [left; reflexivity|exact E].
+Qed.
+
+Theorem C20_commit_known : forall s os tps,
+  commit_tps s os [] = Some tps ->
+  (forall t ps p off, In (t, ps) tps -> In (p, off) ps ->
+     known s t p /\ exists o, In o os /\ co_topic o = t /\ co_partition o = p /\ co_offset o = off)
+  /\ (forall t ps, In (t, ps) tps -> ps <> [])
+  /\ NoDup (map fst tps)
+  /\ map fst tps = first_occ (map co_topic os) []
+  /\ (forall t, tp_entries t tps
+                = map (fun o => (co_partition o, co_offset o)) (filter (fun o => bytes_eqb (co_topic o) t) os)).
+Proof.
+  intros s os tps H. apply commit_tps_Some_iff in H. destruct H as [Hk ->].
+  split; [|split; [|split; [|split]]].
+  - intros t ps p off H H0. apply tp_fold_In in H. destruct H as [_ H]. specialize (H _ H0).
+    unfold commit_items in H. apply in_map_iff in H. destruct H as [o [Ho Hin]]. injection Ho as <- <- <-.
+    split; [apply Hk; exact Hin|]. exists o. auto.
+  - intros t ps H. apply tp_fold_In in H. destruct H as [H _]. exact H.
+  - apply tp_fold_NoDup. constructor.
+  - rewrite tp_fold_keys. unfold commit_items. rewrite map_map. reflexivity.
+  - intros t. rewrite tp_fold_entries. unfold commit_items. rewrite filter_map_snd. reflexivity.
+Qed.
+
+Theorem C20_commit_local_fail : forall s os,
+  commit_tps s os [] = None <-> exists o, In o os /\ ~ known s (co_topic o) (co_partition o).
+Proof. intros s os. apply commit_tps_None_iff. Qed.
+
+Theorem C20_commit_call_local_fail : forall group os x,
+  0 <= offset_storage (cfg (cl x)) ->
+  (exists o, In o os /\ ~ known (cs (cl x)) (co_topic o) (co_partition o)) ->
+  commit_offsets group os x = (Err (EKafka KC_UnknownTopicOrPartition), bump_corr x).
+Proof.
+  intros group os x Hst H. unfold commit_offsets.
+  rewrite (mbind_run _ _ _ _ _ (get_client_run x)).
+  destruct (offset_storage (cfg (cl x)) <? 0) eqn:E; [lia|].
+  rewrite (mbind_run _ _ _ _ _ (next_corr_run x)).
+  apply C20_commit_local_fail in H. rewrite H. reflexivity.
+Qed.
+
+(* ---- group offset fetch ------------------------------------------------------------------------------ *)
+Lemma group_fetch_tps_Some_iff s ps : forall acc tps,
+  group_fetch_tps s ps acc = Some tps <->
+  (forall t p, In (t, p) ps -> known s t p) /\ tps = tp_fold acc ps.
+Proof.
+  induction ps as [|[t p] r IH]; intros acc tps; cbn [group_fetch_tps].
+  - unfold tp_fold. cbn [fold_left]. split.
+    + intros H. injection H as <-. split; [intros t p []|reflexivity].
+    + intros [_ ->]. reflexivity.
+  - destruct (contains_topic_partition s t p) eqn:E.
+    + rewrite IH. unfold tp_fold. cbn [fold_left fst snd]. apply known_iff in E. split.
+      * intros [H1 H2]. split; [|exact H2]. intros t' p' [H'|H']; [injection H' as <- <-; exact E|apply H1; exact H'].
+      * intros [H1 H2]. split; [|exact H2]. intros t' p' H'. apply H1. right. exact H'.
+    + apply not_known_iff in E. split; [discriminate|]. intros [H1 _]. exfalso. apply E. apply H1. left. reflexivity.
+Qed.
+
+Lemma group_fetch_tps_None_iff s ps : forall acc,
+  group_fetch_tps s ps acc = None <-> exists t p, In (t, p) ps /\ ~ known s t p.
+Proof.
+  induction ps as [|[t p] r IH]; intros acc; cbn [group_fetch_tps].
+  - split; [discriminate|intros [t [p [[] _]]]].
+  - destruct (contains_topic_partition s t p) eqn:E.
+    + rewrite IH. apply known_iff in E. split.
+      * intros [t' [p' [H1 H2]]]. exists t', p'. split; [right; exact H1|exact H2].
+      * intros [t' [p' [[H1|H1] H2]]]; [injection H1 as <- <-; contradiction|]. exists t', p'. split; assumption.
+    + apply not_known_iff in E. split; [|reflexivity]. intros _. exists t, p. split; [left; reflexivity|exact E].
+Qed.
+
+Theorem C20_group_fetch_known : forall s args tps,
+  group_fetch_tps s args [] = Some tps ->
+  (forall t ps p, In (t, ps) tps -> In p ps -> known s t p /\ In (t, p) args)
+  /\ (forall t ps, In (t, ps) tps -> ps <> [])
+  /\ NoDup (map fst tps)
+  /\ map fst tps = first_occ (map fst args) []
+  /\ (forall t, tp_entries t tps = map snd (filter (fun a => bytes_eqb (fst a) t) args)).
+Proof.
+  intros s args tps H. apply group_fetch_tps_Some_iff in H. destruct H as [Hk ->].
+  split; [|split; [|split; [|split]]].
+  - intros t ps p H H0. apply tp_fold_In in H. destruct H as [_ H]. specialize (H _ H0).
+    split; [apply Hk; exact H|exact H].
+  - intros t ps H. apply tp_fold_In in H. destruct H as [H _]. exact H.
+  - apply tp_fold_NoDup. constructor.
+  - rewrite tp_fold_keys. reflexivity.
+  - intros t. rewrite tp_fold_entries. reflexivity.
+Qed.
+
+Theorem C20_group_fetch_local_fail : forall s args,
+  group_fetch_tps s args [] = None <-> exists t p, In (t, p) args /\ ~ known s t p.
+Proof. intros s args. apply group_fetch_tps_None_iff. Qed.
+
+Theorem C20_group_fetch_call_local_fail : forall group args x,
+  0 <= offset_storage (cfg (cl x)) ->
+  (exists t p, In (t, p) args /\ ~ known (cs (cl x)) t p) ->
+  fetch_group_offsets group args x = (Err (EKafka KC_UnknownTopicOrPartition), bump_corr x).
+Proof.
+  intros group args x Hst H. unfold fetch_group_offsets.
+  rewrite (mbind_run _ _ _ _ _ (get_client_run x)).
+  destruct (offset_storage (cfg (cl x)) <? 0) eqn:E; [lia|].
+  rewrite (mbind_run _ _ _ _ _ (next_corr_run x)).
+  apply C20_group_fetch_local_fail in H. rewrite H. reflexivity.
+Qed.
+
+(* ================================================================================================== *)
+(* Part 6: fetch_group_topic_offset and fetch_topic_offsets                                            *)
+(* ================================================================================================== *)
+Lemma iota_z_In n : forall from p, In p (iota_z n from) <-> from <= p < from + Z.of_nat n.
+Proof.
+  induction n as [|n IH]; intros from p; cbn [iota_z In].
+  - split; [intros []|lia].
+  - rewrite IH. lia.
+Qed.
+
+Lemma iota_z_length n : forall from, length (iota_z n from) = n.
+Proof. induction n as [|n IH]; intros from; cbn [iota_z length]; [reflexivity|rewrite IH; reflexivity]. Qed.
+
+Lemma fold_tp_add_one_topic {P} topic (l : list P) : forall l0,
+  fold_left (fun acc id => tp_add acc topic id) l [(topic, l0)] = [(topic, l0 ++ l)].
+Proof.
+  induction l as [|x r IH]; intros l0; cbn [fold_left tp_add].
+  - rewrite app_nil_r. reflexivity.
+  - rewrite bytes_eqb_refl, IH, <- app_assoc. reflexivity.
+Qed.
+
+(* the topic entry list of the request built by fetch_group_topic_offset *)
+Definition group_topic_tps (topic : bytes) (n : nat) : list (bytes * list Z) :=
+  match n with O => [] | S _ => [(topic, iota_z n 0)] end.
+
+Lemma group_topic_tps_eq topic n :
+  fold_left (fun acc id => tp_add acc topic id) (iota_z n 0) [] = group_topic_tps topic n.
+Proof.
+  destruct n as [|n]; [reflexivity|].
+  unfold group_topic_tps. cbn [iota_z fold_left tp_add]. rewrite fold_tp_add_one_topic. reflexivity.
+Qed.
+
+(* unknown topic: local failure, no I/O; known topic with n partitions: the one request lists
+   exactly the partitions 0..n-1 of that topic (nothing at all when n = 0) *)
+Theorem C20_group_topic : forall group topic x,
+  0 <= offset_storage (cfg (cl x)) ->
+  match partitions_for (cs (cl x)) topic with
+  | None =>
+      fetch_group_topic_offset group topic x = (Err (EKafka KC_UnknownTopicOrPartition), bump_corr x)
+  | Some ps =>
+      fetch_group_topic_offset group topic x =
+      (let+ m := with_fuel (fun f => group_fetch_loop f group
+                    (enc_offset_fetch_req (fst (next_correlation_id (cs (cl x)))) (client_id (cfg (cl x))) group
+                                          (fetch_version (offset_storage (cfg (cl x))))
+                                          (group_topic_tps topic (length ps))) 1) in
+       ret (match assoc_bytes topic m with Some vs => vs | None => [] end)) (bump_corr x)
+  end.
+Proof.
+  intros group topic x Hst. unfold fetch_group_topic_offset.
+  rewrite (mbind_run _ _ _ _ _ (get_client_run x)).
+  destruct (offset_storage (cfg (cl x)) <? 0) eqn:E; [lia|].
+  rewrite (mbind_run _ _ _ _ _ (next_corr_run x)).
+  destruct (partitions_for (cs (cl x)) topic) as [ps|]; [|reflexivity].
+  cbv zeta. rewrite group_topic_tps_eq. reflexivity.
+Qed.
+
+Theorem C20_group_topic_known : forall s topic ps t qs p,
+  partitions_for s topic = Some ps -> In (t, qs) (group_topic_tps topic (length ps)) -> In p qs ->
+  t = topic /\ known s topic p.
+Proof.
+  intros s topic ps t qs p Hps Hin Hp. unfold group_topic_tps in Hin.
+  destruct (length ps) as [|n] eqn:En; [destruct Hin|].
+  destruct Hin as [Hin|[]]. injection Hin as <- <-. split; [reflexivity|].
+  exists ps. split; [exact Hps|]. apply (proj1 (iota_z_In (S n) 0 p)) in Hp. rewrite En. lia.
+Qed.
+
+Theorem C20_group_topic_exact : forall topic n p,
+  (0 < n)%nat -> (In p (tp_entries topic (group_topic_tps topic n)) <-> 0 <= p < Z.of_nat n).
+Proof.
+  intros topic n p Hn. destruct n as [|n]; [lia|].
+  unfold group_topic_tps, tp_entries. cbn [assoc_bytes]. rewrite bytes_eqb_refl, iota_z_In. lia.
+Qed.
+
+Lemma ordered_nil_run {V} x : @ordered V [] x = (Ok [], x).
+Proof. reflexivity. Qed.
+
+Theorem C20_topic_offsets_unknown : forall topic time x,
+  partitions_for (cs (cl x)) topic = None ->
+  fetch_topic_offsets topic time x = (Err (EKafka KC_UnknownTopicOrPartition), bump_corr x).
+Proof.
+  intros topic time x H. unfold fetch_topic_offsets, fetch_offsets.
+  unfold mbind at 1.
+  rewrite (mbind_run _ _ _ _ _ (next_corr_run x)).
+  rewrite (mbind_run _ _ _ _ _ (get_client_run (bump_corr x))).
+  assert (Hreqs : offset_reqs (cs (cl (bump_corr x))) [topic] time = []).
+  { unfold offset_reqs. cbn [fold_left].
+    change (partitions_for (cs (cl (bump_corr x))) topic) with (partitions_for (cs (cl x)) topic).
+    rewrite H. reflexivity. }
+  rewrite Hreqs. rewrite (mbind_run _ _ _ _ _ (ordered_nil_run (bump_corr x))).
+  reflexivity.
+Qed.
+
+(* ================================================================================================== *)
+(* Part 7: after a metadata reset nothing is known                                                     *)
+(* ================================================================================================== *)
+Theorem C20_after_reset : forall s t p, ~ known (clear_metadata s) t p.
+Proof. intros s t p [ps [H _]]. cbn in H. discriminate H. Qed.
+
+Corollary C20_after_reset_offsets : forall s topics time, offset_reqs (clear_metadata s) topics time = [].
+Proof.
+  intros s topics time. unfold offset_reqs.
+  apply (fold_left_inv (fun reqs => reqs = [])); [|reflexivity].
+  intros acc t _ ->. reflexivity.
+Qed.
+
+Corollary C20_after_reset_fetch : forall c s input, cs c = clear_metadata s -> fetch_reqs c input = [].
+Proof.
+  intros c s input Hc. unfold fetch_reqs.
+  apply (fold_left_inv (fun reqs => reqs = [])); [|reflexivity].
+  intros acc q _ ->. rewrite Hc. reflexivity.
+Qed.
+
+Corollary C20_after_reset_produce : forall s m msgs, produce_reqs (clear_metadata s) (m :: msgs) [] = None.
+Proof. intros s m msgs. reflexivity. Qed.
+
+Corollary C20_after_reset_commit : forall s o os, commit_tps (clear_metadata s) (o :: os) [] = None.
+Proof. intros s o os. reflexivity. Qed.
+
+Corollary C20_after_reset_group_fetch : forall s a args, group_fetch_tps (clear_metadata s) (a :: args) [] = None.
+Proof. intros s [t p] args. reflexivity. Qed.
+
+Theorem C20_reset_call : forall x,
+  exists x', reset_metadata x = (Ok tt, x') /\ cs (cl x') = clear_metadata (cs (cl x))
+             /\ trace x' = trace x /\ script x' = script x.
+Proof. intros x. eexists. split; [reflexivity|]. repeat split; reflexivity. Qed.
+
+(* ================================================================================================== *)
+(* Part 8: the order hints only permute what was built                                                 *)
+(* ================================================================================================== *)
+Lemma take_key_perm {V} k (l : list (bytes * V)) : forall x r, take_key k l = Some (x, r) -> Permutation l (x :: r).
+Proof.
+  induction l as [|[k' v] l' IH]; intros x r; cbn [take_key]; [discriminate|].
+  destruct (bytes_eqb k' k).
+  - intros H. injection H as <- <-. apply Permutation_refl.
+  - destruct (take_key k l') as [[y r']|]; [|discriminate]. intros H. injection H as <- <-.
+    eapply perm_trans; [apply perm_skip; apply IH; reflexivity|apply perm_swap].
+Qed.
+
+Theorem reorder_perm {V} : forall order (l : list (bytes * V)), Permutation (reorder order l) l.
+Proof.
+  induction order as [|k ks IH]; intros l; cbn [reorder]; [apply Permutation_refl|].
+  destruct (take_key k l) as [[x r]|] eqn:E; [|apply IH].
+  apply take_key_perm in E. apply Permutation_sym. eapply perm_trans; [exact E|].
+  apply perm_skip. apply Permutation_sym. apply IH.
+Qed.
+
+Lemma take_zkey_perm {V} k (l : list (Z * V)) : forall x r, take_zkey k l = Some (x, r) -> Permutation l (x :: r).
+Proof.
+  induction l as [|[k' v] l' IH]; intros x r; cbn [take_zkey]; [discriminate|].
+  destruct (k' =? k).
+  - intros H. injection H as <- <-. apply Permutation_refl.
+  - destruct (take_zkey k l') as [[y r']|]; [|discriminate]. intros H. injection H as <- <-.
+    eapply perm_trans; [apply perm_skip; apply IH; reflexivity|apply perm_swap].
+Qed.
+
+Theorem reorder_z_perm {V} : forall order (l : list (Z * V)), Permutation (reorder_z order l) l.
+Proof.
+  induction order as [|k ks IH]; intros l; cbn [reorder_z]; [apply Permutation_refl|].
+  destruct (take_zkey k l) as [[x r]|] eqn:E; [|apply IH].
+  apply take_zkey_perm in E. apply Permutation_sym. eapply perm_trans; [exact E|].
+  apply perm_skip. apply Permutation_sym. apply IH.
+Qed.
+
+(* what `ordered` hands to the exchange loops has the same elements as what was built *)
+Theorem C20_ordered_same : forall V (reqs reqs' : list (bytes * V)) x x',
+  ordered reqs x = (Ok reqs', x') -> Permutation reqs' reqs /\ trace x' = trace x /\ cl x' = cl x.
+Proof.
+  intros V reqs reqs' x x'. unfold ordered. destruct reqs as [|r0 rs].
+  - intros H. injection H as <- <-. repeat split. apply Permutation_refl.
+  - unfold mbind, pop_hosts, ret. destruct (hostq x) as [|h hq]; intros H; injection H as <- <-.
+    + split; [apply (reorder_perm [] (r0 :: rs))|split; reflexivity].
+    + split; [apply (reorder_perm h (r0 :: rs))|split; reflexivity].
+Qed.
+
+(* ... and the per-host hint of a fetch request permutes topics and the partitions inside a topic *)
+Theorem C20_order_fetch_same : forall order (tps : fetch_tps) t ps',
+  In (t, ps') (order_fetch order tps) -> exists ps, In (t, ps) tps /\ Permutation ps' ps.
+Proof.
+  intros order tps t ps' H. unfold order_fetch in H. apply in_map_iff in H.
+  destruct H as [[t0 ps0] [Heq Hin]]. injection Heq as <- <-.
+  exists ps0. split.
+  - eapply Permutation_in; [apply reorder_perm|exact Hin].
+  - destruct (assoc_bytes t0 order); [apply reorder_z_perm|apply Permutation_refl].
+Qed.
+
+Corollary C20_order_fetch_known : forall c input host tps order t ps p x,
+  In (host, tps) (fetch_reqs c input) -> In (t, ps) (order_fetch order tps) -> In (p, x) ps ->
+  known (cs c) t p /\ exists q, In q input /\ fq_topic q = t /\ fq_partition q = p.
+Proof.
+  intros c input host tps order t ps p x H1 H2 H3.
+  apply C20_order_fetch_same in H2. destruct H2 as [ps0 [H2 Hperm]].
+  apply (C20_fetch_known c input host tps t ps0 p x H1 H2).
+  eapply Permutation_in; [exact Hperm|exact H3].
+Qed.
